@@ -120,6 +120,21 @@ class Program:
             self.modules[name] = mod
             self.by_path[rel] = mod
         self._inline_new_helpers()
+        self._tempfree()
+
+    def _tempfree(self):
+        """forward-substitute pure local temporaries (sa/tempfree.py) so that local names and temporaries are irrelevant to the rules"""
+        if os.environ.get("SA_NO_TEMPFREE"):
+            return
+        from .tempfree import normalize_function
+        self.tempfree = []
+        for mn, m in self.modules.items():
+            if m.pyx is not None:
+                continue
+            for q, lst in m.all_functions.items():
+                for fn in lst:
+                    if normalize_function(fn):
+                        self.tempfree.append("%s.%s" % (mn, q))
 
     def _inline_new_helpers(self):
         """functions that are not in the frozen inventory are transparent: inline them into their callers (sa/inline.py)"""
